@@ -225,7 +225,8 @@ def run_property(pid, tier, rules, seed=0, record_floors=False, replay_key=None,
                 "samples": samples or [{"note": "no instance"}],
                 "exhaustive": True,
                 "facts": {"variant": ctx.variant, "target": ctx.target, "bodies": len(ctx.prog.bodies),
-                          "call_sites": ctx.ncalls(), "facts_dir": os.path.basename(ctx.dir)},
+                          "call_sites": ctx.ncalls(), "facts_dir": os.path.basename(ctx.dir),
+                          "renamed_functions_matched_to_recorded_names": [{"recorded": a, "found_as": b_, "callee_similarity": c} for a, b_, c in getattr(ctx.prog, "aliases", [])]},
                 "rules": [{"id": r.rule, "text": r.text, "evaluations": r.evaluations,
                            "distinct_nontrivial": len(r.instances), "findings": len(r.findings),
                            "floor_counts": r.floor_counts, "notes": r.notes[:20]} for r in reports],
